@@ -146,8 +146,58 @@ pub fn run(ctx: &Ctx) -> i32 {
         check_format(s, &mut d);
     }
     acc = acc.merge(d);
+    // every ordered pair of documented elements (a directive directly after another, after %%,
+    // after an escape), and every sequence of up to four pieces that only form a directive when
+    // read from the wrong place
+    {
+        let mut base: Vec<String> = vec![];
+        for d in "%abcdDfFgGhHiklmMnpPsStuUyYZ".chars() {
+            base.push(format!("%{d}"));
+        }
+        for t in ["%A@", "%AY", "%A%", "%C%", "%T%", "%Tk", "%A", "%T", "%"] {
+            base.push(t.to_string());
+        }
+        for b in ["{fid}", "{projid}", "{mirror-count}", "{stripe-count}", "{stripe-size}", "{xattr:user}"] {
+            base.push(format!("%{b}"));
+            base.push(b.to_string());
+        }
+        for e in ["\\n", "\\\\", "\\101", "\\0", "\\", "\\c", "x", "{", "}"] {
+            base.push(e.to_string());
+        }
+        let n = base.len() as u64;
+        acc = acc.merge(par_cases(n * n, |i, acc| {
+            let s = format!("{}{}", base[(i / n) as usize], base[(i % n) as usize]);
+            check_format(&s, acc);
+            check_format(&format!("a{s}b"), acc);
+        }));
+        let core = ["%%", "%", "%A", "%T%", "\\", "{fid}", "%{fid}", "{xattr:user}", "%{projid}", "%p", "\\n", "x", "}"];
+        let k = core.len() as u64;
+        for len in 3..=4u32 {
+            acc = acc.merge(par_cases(k.pow(len), |mut i, acc| {
+                let mut s = String::new();
+                for _ in 0..len {
+                    s.push_str(core[(i % k) as usize]);
+                    i /= k;
+                }
+                check_format(&s, acc);
+            }));
+        }
+    }
+    // very long formats: element counts around 4096 and 65536 (a bound on the number of
+    // elements, not of bytes), valid and with an invalid directive at the very end
+    {
+        let mut huge: Vec<String> = vec![];
+        for n in [1000usize, 4095, 4096, 4097, 5000, 65535, 65536, 65537, 70000] {
+            for u in ["%p", "\\n", "%%", "a%s", "\\101x"] {
+                for tail in ["", "%q", "%p", "\\q", "%{fid}"] {
+                    huge.push(format!("{}{tail}", u.repeat(n)));
+                }
+            }
+        }
+        acc = acc.merge(speclib::report::par_items(&huge, |s, acc| check_format(s, acc)));
+    }
     // every character of the Basic Multilingual Plane after '%', after '%A' and after '\\'
-    acc = acc.merge(par_cases(0x10000, |cp, acc| {
+    acc = acc.merge(par_cases(0x110000, |cp, acc| {
         if let Some(c) = char::from_u32(cp as u32) {
             if c == '\'' || c == '\0' || (c as u32) < 0x80 {
                 return;
